@@ -361,6 +361,123 @@ def batch(arg):
     return part
 
 
+def region_program(rnd):
+    """A scalar assigned once per (serial) outer iteration and then used by
+    a work-shared loop; the scalar assignment is to be executed by ONE thread
+    (single) inside the same parallel region."""
+    from vf.flite import B as B_, V as V_, I as I_, R as R_, A as A_, IC as IC_
+    w, r = rnd.sample(["a", "b", "c"], 2)
+    sc = rnd.choice(["r1", "r2"])
+    outer = rnd.random() < 0.7
+    val = B_("+", V_("x2"), IC_("real", V_("k"), I_(8))) if outer else \
+        B_("*", V_("x2"), R_(2.0))
+    inner = ["do", "i", I_(1), V_("n"), None, [
+        ["assign", A_(w, V_("i")),
+         B_("+", A_(w, V_("i")), B_("*", V_(sc), A_(r, V_("i"))))]]]
+    body = [["assign", V_(sc), val], inner]
+    if outer:
+        body = [["do", "k", I_(1), I_(rnd.choice([2, 3])), None, body]]
+    return scen._unit(rnd, body), outer
+
+
+def region_batch(arg):
+    """OMPLoopTrans on the loop, OMPSingleTrans on the scalar assignment in
+    front of it, OMPParallelTrans around both (inside an enclosing serial
+    loop or at routine level); real executions only."""
+    from psyclone.psyir.nodes import Loop, Assignment
+    from psyclone.transformations import OMPParallelTrans, OMPSingleTrans
+    from psyclone.psyir.transformations import OMPLoopTrans, \
+        TransformationError
+    part = Part()
+    rnd = random.Random(arg["seed"])
+    wd = tempfile.mkdtemp(prefix="vf_c09r_")
+    inputs = diffrun.INPUTS[:arg["ninputs"]]
+    try:
+        for n in range(arg["count"]):
+            unit, outer = region_program(rnd)
+            mod_text = flite.module_text(unit)
+            main_text = flite.main_text(unit)
+            good = diffrun.valid_inputs(unit, inputs)
+            if not good:
+                part.count("no_valid_input")
+                continue
+            tree = psy.read(mod_text)
+            loops = tree.walk(Loop)
+            lp = loops[1] if outer else loops[0]
+            asg = lp.parent.children[lp.position - 1]
+            try:
+                OMPLoopTrans(omp_schedule="runtime").apply(lp)
+                OMPSingleTrans().apply(asg)
+                sched = lp.parent.parent.parent
+                pos = lp.parent.parent.position
+                OMPParallelTrans().apply(sched.children[pos - 1:pos + 1])
+                ttext = psy.write(tree)
+            except TransformationError:
+                part.count("refused")
+                continue
+            except Exception as err:
+                part.count("region_crash:" + type(err).__name__)
+                continue
+            part.count("accepted")
+            part.count("accepted:single+do_region" +
+                       ("_in_serial_loop" if outer else ""))
+            cl = {"private": set(), "firstprivate": set()}
+            for l in ttext.splitlines():
+                if l.strip().lower().startswith("!$omp"):
+                    c2 = parse_directive(l)
+                    for key in ("private", "firstprivate"):
+                        cl[key] |= c2[key]
+            masked = set(cl["private"]) | set(cl["firstprivate"]) | {"i", "k"}
+            ok, err = fx.compile_f(os.path.join(wd, "omp"),
+                                   [("p.f90", ttext + main_text)],
+                                   extra=["-fopenmp"])
+            if not ok:
+                part.violation({"kind": "openmp_code_does_not_compile",
+                                "mechanism": None,
+                                "what": "single+do region: " +
+                                        err.strip()[:300],
+                                "source": mod_text, "transformed": ttext,
+                                "dedupe": "compile_region"})
+                continue
+            witness = None
+            for key in sorted(good):
+                serial = printed_masked(good[key], masked)
+                for T in THREADS:
+                    sch = rnd.choice(SCHEDULES)
+                    rc, out, serr = fx.run_exe(
+                        os.path.join(wd, "omp"), stdin="%d %d\n" % key,
+                        env={"OMP_NUM_THREADS": str(T), "OMP_SCHEDULE": sch,
+                             "OMP_DYNAMIC": "false"})
+                    part.count("real_executions")
+                    got = printed_masked(fx.canon(
+                        diffrun.strip_markers(out)), masked)
+                    if rc != 0 or got != serial:
+                        witness = (key, T, sch, serial, got if rc == 0 else
+                                   "rc=%s %s" % (rc, serr[-150:]))
+                        break
+                if witness:
+                    break
+            if witness:
+                key, T, sch, serial, got = witness
+                d = [(x_, y_) for x_, y_ in zip(serial.splitlines(),
+                                                got.splitlines())
+                     if x_ != y_][:1]
+                part.violation({
+                    "kind": "parallel_result_differs_from_serial",
+                    "mechanism": None,
+                    "what": "single+do region (clauses %s), input %s, %d "
+                            "threads, %s: serial %r vs parallel %r" % (
+                                sorted(masked), key, T, sch,
+                                d[0][0][:100] if d else "?",
+                                d[0][1][:100] if d else got[:100]),
+                    "source": mod_text, "transformed": ttext,
+                    "dedupe": ("region", outer)})
+            part.case(key=("region", mod_text), nontrivial=True)
+    finally:
+        shutil.rmtree(wd, ignore_errors=True)
+    return part
+
+
 def main(ctx):
     ctx.rule = ("kernels from the dependence scenario generator, chunk/swap/"
                 "fuse scenarios and generic kernels; OMPParallelLoopTrans or "
@@ -377,6 +494,12 @@ def main(ctx):
              "ninputs": 3 if ctx.quick else 6,
              "emulations": 6 if ctx.quick else 20} for i in range(nb)]
     for res in ctx.pmap("vf.checks.c09", "batch", jobs, timeout=3400):
+        if res:
+            ctx.merge(res)
+    rjobs = [{"seed": ctx.rng("r", i).random(),
+              "count": 2 if ctx.quick else 10,
+              "ninputs": 3 if ctx.quick else 6} for i in range(16)]
+    for res in ctx.pmap("vf.checks.c09", "region_batch", rjobs, timeout=3400):
         if res:
             ctx.merge(res)
     if ctx.counters.get("emulated_executions", 0) == 0:
